@@ -768,6 +768,7 @@ pub fn mtgraph_run(src: &mut Src, ctx: &mut RunCtx, prop: &'static str, c07: Opt
     let mut recipe = gen_recipe(src, small, if c07.is_some() { 3 } else if crate::engine::deep() { 9 } else { 6 });
     let mut fail_pos = None;
     let mut bystander = false;
+    let mut lone = false;
     match &c07 {
         Some(C07Mode::Cancel) => {
             recipe.infinite = src.chance(2, 3);
@@ -779,7 +780,11 @@ pub fn mtgraph_run(src: &mut Src, ctx: &mut RunCtx, prop: &'static str, c07: Opt
             // (nothing else ever ends that graph): the block fails on its
             // first call, which every block thread makes.
             bystander = matches!(c07, Some(C07Mode::Fail)) && src.coin();
-            let k = if bystander { 1 } else { src.range(1, 6) as u64 };
+            // Or the failing block is the only block of the graph (every
+            // other block of the recipe is dropped before the run): no block
+            // ends normally, nothing is left to report statistics about.
+            lone = matches!(c07, Some(C07Mode::Fail)) && !bystander && src.chance(1, 6);
+            let k = if bystander || lone { 1 } else { src.range(1, 6) as u64 };
             // Insert outside diamonds.
             recipe.stages.insert(pos, Stage::Fail(k));
             fail_pos = Some((pos, k));
@@ -850,6 +855,10 @@ pub fn mtgraph_run(src: &mut Src, ctx: &mut RunCtx, prop: &'static str, c07: Opt
             let mut g = s2.lock();
             g.watch = Some(f.clone());
             g.watch_bound = 300_000;
+        }
+        if lone {
+            built.blocks.retain(|b| b.block_name() == "FailAt");
+            s2.lock().count("failing_block_alone_in_the_graph");
         }
         for b in std::mem::take(&mut built.blocks) {
             let name = b.block_name().to_string();
